@@ -273,7 +273,9 @@ Inductive op :=
   | OSetValue (x : nat) (text : str)                     (* x.value = text *)
   | OSetValueDt (x : nat) (dt text : str)                (* x.value = dt(text) *)
   | OSetDatatype (x : nat) (dt : option str)             (* x.datatype = dt *)
-  | OSetParent (c : nat) (p : option nat).               (* c.parent = p *)
+  | OSetParent (c : nat) (p : option nat)                (* c.parent = p *)
+  | ORemoveByName (x : nat) (name : str) (i : Z)         (* x.children.remove_by_name(name, i), i may be negative *)
+  | OSetValueNone (x : nat) (names : list str).          (* x.n1...nk.value = None *)
 
 Record rstate := mk_rstate { r_store : store; r_handles : list nat }.
 
@@ -1013,6 +1015,20 @@ Definition write_value (x : nat) (names : list str) (text : str) : M unit :=
   to_traversal FUEL el ;;
   set_value el text.
 
+(* x.n1...nk.value = None : the proxy promotes the element it resolves to (as for any .value
+   assignment); SubComponent._set_value(None) just clears the value; the other classes hand None to
+   their child parser (text[:3] / text.split) *)
+Definition write_value_none (x : nat) (names : list str) : M unit :=
+  let! pr := read_chain x names in
+  let! el := proxy_element (fst pr) (snd pr) in
+  to_traversal FUEL el ;;
+  let! E := node_of el in
+  match n_cls E with
+  | CSub => set_val el [] []
+  | CSeg => raise (Crash TypeError)
+  | _ => raise (Crash AttributeError)
+  end.
+
 (* x.<name>[i] = v *)
 Definition set_index (x : nat) (name : str) (i : Z) (v : value) : M unit :=
   let! '(o, pn) := get_proxy x name in
@@ -1041,6 +1057,13 @@ Definition del_child (x : nat) (name : str) : M unit :=
   let! c := child_at_index false x name 0 in
   match c with
   | None => raise (Crash AttributeError)        (* None.traversal_parent *)
+  | Some c => remove_child x c
+  end.
+(* x.children.remove_by_name(name, index) *)
+Definition remove_by_name (x : nat) (name : str) (i : Z) : M unit :=
+  let! c := child_at_index false x name i in
+  match c with
+  | None => raise (Crash AttributeError)
   | Some c => remove_child x c
   end.
 Definition del_attr (x : nat) (name : str) : M unit :=
@@ -1208,6 +1231,8 @@ Definition op_m (r : rstate) (o : op) : M (option nat * str) :=
       | None => none (set_parent c None)
       | Some p => let! p := H p in none (set_parent c (Some p))
       end
+  | ORemoveByName x name i => let! x := H x in none (remove_by_name x name i)
+  | OSetValueNone x names => let! x := H x in none (write_value_none x names)
   end.
 
 (* one step of a history: new state, outcome code, printable result *)
